@@ -30,6 +30,17 @@ def expression_set(tier):
             for op in ("and", "or"):
                 E.append((op, x, a))
                 E.append((op, a, x))
+    # operands containing map(): simple and compound, on either side of simple and compound operands
+    maps_simple = [("cmp", "tags", ("k", ("map", "upper")), "==", "A"), ("cmp", "tags", ("k", ("map", "upper")), "==", "B"),
+                   ("cmp", "fields", ("x", ("map", "neg")), "<", 0)]
+    maps_compound = [("not", maps_simple[0]), ("and", d0[1], maps_simple[1]), ("or", maps_simple[2], d0[3])]
+    plain = d0[:3] + d1c[:6] + d1c[-4:]
+    for mq in maps_simple + maps_compound:
+        for x in plain:
+            for op in ("and", "or"):
+                E.append((op, x, mq))
+                E.append((op, mq, x))
+        E.append(("not", mq))
     if tier == "thorough":
         for x in d1c[:40]:
             for y in d1c[:40]:
